@@ -289,7 +289,7 @@ func checkC19(c *vlib.Ctx) (string, string) {
 		shapes += len(trees)
 	}
 	c.Set("tree_texts_enumerated", shapes)
-	for mask := 0; mask < 1<<13 && !c.Stopped(); mask++ {
+	for mask := 0; mask < 1<<16 && !c.Stopped(); mask++ {
 		c.States.Add(1)
 		c.Transitions.Add(2)
 		if mask&(mask-1) != 0 {
@@ -330,15 +330,28 @@ func c19JudgeConfig(mask int) *vlib.Failure {
 			want += 2
 		}
 	}
+	// the two tolerate switches, set independently of each other
+	cfg.DangerouslyTolerateInsecureOrigins = mask&(1<<13) != 0
+	cfg.DangerouslyTolerateSubdomainsOfPublicSuffixes = mask&(1<<14) != 0
+	if mask&(1<<15) != 0 {
+		cfg.Origins = append(cfg.Origins, "https://*.com") // a violation unless the public-suffix switch is set
+		if !cfg.DangerouslyTolerateSubdomainsOfPublicSuffixes {
+			want++
+		}
+	}
 	if mask&(1<<12) != 0 {
-		// * listed before a pattern that needs the insecure switch: with credentials and with a PNA mode each of the
-		// two is a violation of its own
+		// * listed before a pattern that needs the insecure switch: with credentials and with a PNA mode * is a
+		// violation of its own, and so is the insecure pattern unless the insecure switch is set
 		cfg.Origins = append([]string{"*", "http://insecure.example"}, cfg.Origins...)
+		per := 2
+		if cfg.DangerouslyTolerateInsecureOrigins {
+			per = 1
+		}
 		if cfg.Credentialed {
-			want += 2
+			want += per
 		}
 		if cfg.PrivateNetworkAccess || cfg.PrivateNetworkAccessInNoCORSModeOnly {
-			want += 2
+			want += per
 		}
 	}
 	if mask&(1<<11) != 0 {
